@@ -23,3 +23,4 @@ def run(prog, rep):
     _rio8.run_append(prog, rep)
     _rio8.run_type_gate(prog, rep)
     _rio8.run_rank_gate(prog, rep)
+    _rio8.run_set_extent(prog, rep)
